@@ -81,6 +81,10 @@ CHECKS.update({
  'C17': dict(
     technique='runtime monitoring: step limits at every cut point, time limits under a virtual clock at every cut point, idempotence snapshots, locked-state mutators, and random call interleavings against a lifecycle automaton',
     text='Exploration; no wall-clock value enters a verdict.', note='Trusted base: the lifecycle automaton in vlib/props/c17.py.', design='4/C17'),
+ 'C19': dict(
+    technique='runtime monitoring: every registered tableau writer configuration (enumerated from the live registry) renders finished tableaux of real proofs twice; exception, determinism and a text-layout oracle (tokens from the writer\'s own LexWriter embedded per branch along the parsed root-to-leaf structure lines)',
+    text='Exploration: thousands of finished tableaux per run in all 57 logics (valid, invalid, premature, quit-flag nests, documentation tableaux with ellipsis nodes) x 88 writer configurations.',
+    note='Necessary-condition oracle for the text rendering (never stricter than the statement); the unregistered WIP doctree text writer is outside the quantifier.', design='4/C19'),
  'C20': dict(
     technique='runtime monitoring: get_data() of branch models and directly built models compared with value_of(), frames and R',
     text='Exploration over thousands of models per logic.', note='Relative to the library evaluator (C08 checks the evaluator).', design='4/C20'),
